@@ -22,6 +22,9 @@ ENTRIES = [
 
 
 def run(ctx):
+    # end_state enumerations read the incoming view: every edit keeps the three views together
+    ctx.do(SI.rule_v2_rename)
+    ctx.do(E.rule_memo_own1)
     ctx.do(E.rule_m1)
     ctx.do(E.rule_m2)
     ctx.do(E.rule_m3)
